@@ -94,6 +94,17 @@ def check(repo):
                 r1.fail_fn(f, f.node, "%s rebinds the guarded object" % op, "%s.%s rebinds self.%s (replacing the closed marker)" % (cname, op, attr), witness=desc)
             else:
                 r1.ok(desc)
+            # an observation is computed from the guarded object on every path (never served from a private copy: a count or key cache
+            # drifts as soon as an operation fails half way, e.g. the delete of an absent key)
+            if op in ("__len__", "__iter__", "__contains__", "__getitem__", "get"):
+                G = ("attr", ("var", "self"), attr)
+                for ps in summarize(f):
+                    if ps.exc is None and ps.returned and ps.ret is not None and not _has(ps.ret, G) and not any(
+                            isinstance(ps.ret, tuple) and ps.ret[0] == "call" and isinstance(ps.ret[1], tuple) and ps.ret[1][0] == "fn" and str(ps.ret[1][1]).startswith("self.%s." % attr) for _ in [0]):
+                        r1.fail_fn(f, f.node, "%s answers from a copy" % op,
+                                   "%s.%s can return %s, which is not computed from self.%s [%s]: the answer is a cached copy that diverges from the dictionary (for instance after "
+                                   "a delete that raised KeyError)" % (cname, op, S.show(ps.ret)[:60], attr, describe_alt(ps.facts)[:100]), witness=desc)
+                        break
         # ------------------------------------------------------------ R20.2
         st = ci.methods.get("__setitem__")
         if st is not None:
